@@ -1,4 +1,4 @@
-import DoltVerif.Lemmas.ValCodecLayout
+import DoltVerif.Lemmas.ValCodecKeys
 /-!
 C15 — Tuple encodings round-trip and sort like the SQL values they encode.
 
@@ -329,5 +329,109 @@ theorem empty_vs_null (fs : List Field) (t : Bytes) (h : newTuple fs = .ok t) (h
 
 example : newTuple [some (writeByteString []), none] = .ok [0, 1, 0] ∧
     getField [0, 1, 0] 0 = .ok (some [0]) ∧ readByteString [0] = .ok [] := by decide
+
+/-! ## order of tuples -/
+
+/-- **tuple_order**: `TupleDesc.Compare` on two built tuples — the raw fixed-offset loop over the
+leading NOT NULL fixed-width columns, then `GetField` for the rest — is the comparison of the two
+*rows* field by field with `compareField` (NULLs first, then the encoding's comparer; columns a
+shorter tuple does not store are NULL), the first difference deciding.
+`FastOk`: the NOT NULL fixed-width prefix holds values of exactly their width (what `Build`
+enforces; see `fast_path_needs_notnull`). -/
+theorem tuple_order (ts : List TType) (xs ys : List Field) (s t : Bytes)
+    (hs : newTuple xs = .ok s) (ht : newTuple ys = .ok t) (fx : FastOk ts xs) (fy : FastOk ts ys) :
+    compareTuples ts s t = specTupleCompare ts 0 xs ys := by
+  obtain ⟨hx, rfl⟩ := newTuple_ok hs
+  obtain ⟨hy, rfl⟩ := newTuple_ok ht
+  exact compareTuples_layout ts xs ys hx hy fx fy
+
+/-- non-vacuity: (int32 NOT NULL, string NULL) rows (1,"a") < (1,"b"), (1,NULL) < (1,"a"), -1 < 1 -/
+example :
+    let ts : List TType := [⟨.int32, false⟩, ⟨.string, true⟩]
+    FastOk ts [some (writeI32 1), some (writeByteString [97])] ∧
+    specTupleCompare ts 0 [some (writeI32 1), some (writeByteString [97])] [some (writeI32 1), some (writeByteString [98])] = .ok .lt ∧
+    specTupleCompare ts 0 [some (writeI32 1), none] [some (writeI32 1), some (writeByteString [97])] = .ok .lt ∧
+    specTupleCompare ts 0 [some (writeI32 (-1)), none] [some (writeI32 1)] = .ok .lt := by
+  refine ⟨?_, by decide, by decide, by decide⟩
+  simp only [FastOk, Enc.fixedSize]
+  exact ⟨_, _, rfl, by decide, by simp [FastOk]⟩
+
+/-- the precondition is real: with a NULL in a NOT NULL fixed-width column (only `BuildPermissive`
+lets that through) the fixed-offset loop compares whatever bytes sit at the offset.  Rows
+(NULL, 9) and (1, 0): field-wise NULL < 1, the tuple comparison says greater. -/
+theorem fast_path_needs_notnull :
+    let ts : List TType := [⟨.int8, false⟩, ⟨.int8, true⟩]
+    ∃ s t, newTuple [none, some [9]] = .ok s ∧ newTuple [some [1], some [0]] = .ok t ∧
+      compareTuples ts s t = .ok .gt ∧ specTupleCompare ts 0 [none, some [9]] [some [1], some [0]] = .ok .lt := by
+  exact ⟨[9, 0, 0, 2, 0], [1, 0, 1, 0, 2, 0], by decide, by decide, by decide, by decide⟩
+
+/-- **order by key**: for rows whose fields are NULL or have an order key (`keyOf`: integer value,
+day number, non-NaN float key, byte string — everything except decimals, NaN floats and the
+adaptive/unordered encodings), comparing the tuples is the lexicographic comparison of the key
+rows, NULL first. -/
+theorem compare_by_key (ts : List TType) (xs ys : List Field) (s t : Bytes)
+    (hs : newTuple xs = .ok s) (ht : newTuple ys = .ok t) (fx : FastOk ts xs) (fy : FastOk ts ys)
+    (vx : RowValid ts 0 xs) (vy : RowValid ts 0 ys) :
+    compareTuples ts s t = .ok (lexCmp (okCmp Key.cmp) (rowKeys ts 0 xs) (rowKeys ts 0 ys)) := by
+  rw [tuple_order ts xs ys s t hs ht fx fy, spec_lex ts 0 xs ys vx vy]
+
+theorem lawful_rowCmp : Lawful (lexCmp (okCmp Key.cmp)) := lawful_lexCmp (lawful_okCmp lawful_keyCmp)
+
+/-- **compare_total_preorder** (what the prolly-tree properties C11–C14 need of the key order):
+on built tuples of valid rows the comparison never fails and is reflexive, antisymmetric in the
+three-way sense (`Compare(t,s) = -Compare(s,t)`), transitive, and tuples that compare equal are
+interchangeable in every other comparison. -/
+theorem compare_total_preorder (ts : List TType) (xs ys zs : List Field) (s t u : Bytes)
+    (hs : newTuple xs = .ok s) (ht : newTuple ys = .ok t) (hu : newTuple zs = .ok u)
+    (fx : FastOk ts xs) (fy : FastOk ts ys) (fz : FastOk ts zs)
+    (vx : RowValid ts 0 xs) (vy : RowValid ts 0 ys) (vz : RowValid ts 0 zs) :
+    compareTuples ts s s = .ok .eq ∧
+    (∃ o, compareTuples ts s t = .ok o ∧ compareTuples ts t s = .ok o.swap) ∧
+    (∃ o1 o2 o3, compareTuples ts s t = .ok o1 ∧ compareTuples ts t u = .ok o2 ∧ compareTuples ts s u = .ok o3 ∧
+      (o1 ≠ .gt → o2 ≠ .gt → o3 ≠ .gt) ∧ (o1 = .lt → o2 = .lt → o3 = .lt) ∧ (o1 = .eq → o3 = o2)) := by
+  have L := lawful_rowCmp
+  rw [compare_by_key ts xs xs s s hs hs fx fx vx vx, compare_by_key ts xs ys s t hs ht fx fy vx vy,
+    compare_by_key ts ys xs t s ht hs fy fx vy vx, compare_by_key ts ys zs t u ht hu fy fz vy vz,
+    compare_by_key ts xs zs s u hs hu fx fz vx vz]
+  refine ⟨by rw [L.refl], ⟨_, rfl, by rw [L.swap]⟩, _, _, _, rfl, rfl, rfl, ?_, ?_, ?_⟩
+  · exact L.trans_le _ _ _
+  · exact L.trans_lt _ _ _
+  · intro e; exact L.eq_left _ _ _ e
+
+/-- equal comparison means equal keys column by column for the injective encodings: e.g. two
+`int64` fields compare equal only if they are the same bytes -/
+theorem int64_equal_iff_identical (a b : Int64) :
+    compareEnc .int64 (writeI64 a) (writeI64 b) = .ok .eq ↔ writeI64 a = writeI64 b := by
+  rw [order_int64]
+  constructor
+  · intro h
+    have := specCmpInt_eq_iff.1 (Except.ok.inj h)
+    rw [Int64.toInt_inj.1 this]
+  · intro h
+    have : a = b := by
+      have r1 := readI64_writeI64 a
+      rw [h, readI64_writeI64] at r1
+      exact (Except.ok.inj r1).symm
+    rw [this, specCmpInt_refl]
+
+/-- floats: on non-NaN bit patterns the comparison is the order of the sign-magnitude keys
+(−0 = +0).  That these keys are IEEE-754 `<` is checked by correspondence only (Lean has no
+theory of Go's float64). -/
+theorem order_float64 (a b : UInt64) (ha : f64IsNaN a = false) (hb : f64IsNaN b = false) :
+    compareEnc .float64 (writeU64 a) (writeU64 b) = .ok (specCmpInt (f64Key a) (f64Key b)) := by
+  have h : compareEnc .float64 (writeU64 a) (writeU64 b) =
+      (do pure (compareF64 (← readU64 (writeU64 a)) (← readU64 (writeU64 b)))) := rfl
+  rw [h, readU64_writeU64, readU64_writeU64, ← compareF64_key ha hb]; rfl
+theorem order_float32 (a b : UInt32) (ha : f32IsNaN a = false) (hb : f32IsNaN b = false) :
+    compareEnc .float32 (writeU32 a) (writeU32 b) = .ok (specCmpInt (f32Key a) (f32Key b)) := by
+  have h : compareEnc .float32 (writeU32 a) (writeU32 b) =
+      (do pure (compareF32 (← readU32 (writeU32 a)) (← readU32 (writeU32 b)))) := rfl
+  rw [h, readU32_writeU32, readU32_writeU32, ← compareF32_key ha hb]; rfl
+
+/-- with a NaN the Go comparison (`==` false, `<` false, hence 1 both ways) is not an order:
+NaN "is greater than" itself.  NaN is not an SQL value (MySQL has none); recorded so that nobody
+relies on `compare_total_preorder` for raw NaN bit patterns. -/
+theorem float_nan_breaks_order :
+    compareEnc .float64 (writeU64 0x7ff8000000000001) (writeU64 0x7ff8000000000001) = .ok .gt := by decide
 
 end DoltVerif.C15
